@@ -1,8 +1,25 @@
 import Csverif.Proofs.Spec
+import Csverif.Props.C01
+import Csverif.Props.C13
+import Csverif.Model.Spec.Confine
 /-
 C12 — root confinement: `confined root target` (Model/Spec/Sync.lean) is the component-wise prefix
 relation, not a string prefix: a sibling whose name merely starts with the root's name is outside.
-The monitor (op `c12`) evaluates `confined` on every engine-issued mutating call of a run.
+
+Contents (definitions in Model/Spec/Sync.lean and Model/Spec/Confine.lean; executed by the driver layer
+`monc12`, Driver/MonC12.lean, on every run of the real engine):
+1. component-level lemmas about `confined` (reflexive, transitive, prefix sibling / diverging paths excluded);
+2. the BRIDGE to the string-level path model of C13: `isSubpath_confinedStr`, `translate_confinedStr`,
+   `translate_none_iff_outside`, `not_confined_translate_none`; the converse is refuted (`confinedStr_not_isSubpath`);
+3. the exact meaning of the monitor's verdict on engine-issued calls (`checkCall_ok_spelled`, `checkCalls_none_iff`);
+4. UNIVERSAL SAFETY of the Confine contract: `confined_ops_outside_untouched`;
+5. the verdicts on snapshots (`stepsUntouched_sound`, `noAlien_sound`, `movedOutOk_sound`, `movedInOk_sound`);
+6. the decision table of the head of `SyncManager.embrace_change` (manager.py 1420-1444): `move_out_is_peer_delete`,
+   `declined_translate_left_alone`, `outside_never_copied`, `peer_delete_iff`, `proceed_iff`, `asks_iff`, ...;
+7. the audited WRITE-SITE TABLE and what its classes guarantee: `audited_rows_classified`, `path_targeted_writes_confined`
+   (the equality with the table generated from the repo is `write_sites_are_known` in Props/C12Sites.lean).
+Not proved here (false of the pinned engine, see known_findings.txt): that an id-targeted write always hits an object that
+is still inside the root — that is decided call by call by the trace monitor.
 -/
 namespace CS.Spec
 set_option linter.unusedVariables false
@@ -68,5 +85,570 @@ example : allConfined ["r", "local"] [["r", "local", "a"], ["r", "local"], ["r",
     allConfined ["r", "local"] [["r", "local", "a"], ["r", "localX", "a"]] = false ∧
     allConfined ["r", "local"] [["r"]] = false := by
   decide
+
+
+/-! ## Bridge: the string-level path model (Model/Path.lean, C13) and component-level `confined`
+
+`pathComps c p` (Model/Spec/Confine.lean) = the components the provider itself compares: alternate
+separators replaced, split at the separator, empty fields dropped, case-folded iff the provider is
+case-insensitive.  What IS connected: `is_subpath` accepting a target implies component-level
+confinement (`isSubpath_confinedStr`), hence every result of the default `translate` is confined to the
+root it was joined to (`translate_confinedStr`), and the default `translate` declines exactly the paths
+`is_subpath` rejects (`translate_none_iff_outside`).  What is NOT connected: the converse.  `is_subpath`
+compares normalised *strings*, so a non-canonical spelling inside the root (a doubled separator) is
+rejected by it although its components are confined — `confinedStr_not_isSubpath` (kernel-checked).
+The monitor therefore uses `confinedStr` on the paths the provider reports (canonical), and the harness
+compares both verdicts with the real `Provider.is_subpath` on every path it sees (op `sub`). -/
+
+open CS.Path in
+/-- `is_subpath(root, p)` truthy ⇒ the root's components are a prefix of `p`'s components -/
+theorem isSubpath_confinedStr (c : Cfg) (h : c.WF) (f p : Str) (hs : isSubpath c f p false ≠ .no) :
+    confinedStr c f p = true := by
+  cases hr : isSubpath c f p false with
+  | no => exact absurd hr hs
+  | rel r =>
+    obtain ⟨_, hC⟩ := isSubpath_rel_spec h.ok hr
+    unfold confinedStr pathComps
+    rw [← hC, List.map_append]
+    exact confined_append _ _
+
+open CS.Path in
+/-- every path the default `translate` returns lies inside the root it was joined to, on a
+    component boundary -/
+theorem translate_confinedStr (cF cT : Cfg) (hF : cF.WF) (hT : cT.WF) (rF rT p q : Str)
+    (hrT : Absolute cT rT) (h : translate cF cT rF rT p = some q) : confinedStr cT rT q = true :=
+  isSubpath_confinedStr cT hT rT q (translate_lands_in_root cF cT hF hT rF rT p q hrT h)
+
+open CS.Path in
+/-- the default `translate` declines a path iff `is_subpath(root, path)` is false: with the default
+    translate the "declined but still inside the root" branch of `embrace_change` is unreachable -/
+theorem translate_none_iff_outside (cF cT : Cfg) (hF : cF.WF) (rF rT p : Str) :
+    translate cF cT rF rT p = none ↔ isSubpath cF rF p false = .no := by
+  constructor
+  · intro h
+    cases hr : isSubpath cF rF p false with
+    | no => rfl
+    | rel r =>
+      have hne : isSubpath cF rF p false ≠ .no := by rw [hr]; exact fun e => by cases e
+      obtain ⟨q, hq⟩ := translate_inside_some cF cT hF rF rT p hne
+      rw [h] at hq; cases hq
+  · exact translate_outside_none cF cT rF rT p
+
+open CS.Path in
+/-- a path outside the root — in particular a prefix sibling — is never translated -/
+theorem not_confined_translate_none (cF cT : Cfg) (hF : cF.WF) (rF rT p : Str)
+    (h : confinedStr cF rF p = false) : translate cF cT rF rT p = none := by
+  rw [translate_none_iff_outside cF cT hF]
+  cases hr : isSubpath cF rF p false with
+  | no => rfl
+  | rel r =>
+    have hne : isSubpath cF rF p false ≠ .no := by rw [hr]; exact fun e => by cases e
+    rw [isSubpath_confinedStr cF hF rF p hne] at h
+    cases h
+
+open CS.Path in
+/-- LIMIT OF THE BRIDGE (kernel-checked): the converse of `isSubpath_confinedStr` fails on a
+    non-canonical spelling — `//a/b` has the components of a path inside `/a`, but `is_subpath`
+    compares strings and rejects it -/
+theorem confinedStr_not_isSubpath :
+    confinedStr (mkCfg true false) "/a".toList "//a/b".toList = true ∧
+    isSubpath (mkCfg true false) "/a".toList "//a/b".toList false = .no := by
+  decide
+
+open CS.Path in
+/-- the instances named in the property, at string level through the bridge: prefix siblings of the
+    root, the account root, and a folder that differs from the root by letter case only (outside on a
+    case-sensitive provider, the root itself on a case-insensitive one) -/
+theorem string_siblings_not_confined :
+    confinedStr (mkCfg true false) "/local".toList "/localX/f".toList = false ∧
+    confinedStr (mkCfg true false) "/local".toList "/local2".toList = false ∧
+    confinedStr (mkCfg true false) "/local".toList "/local-archive/f".toList = false ∧
+    confinedStr (mkCfg true false) "/local".toList "/f".toList = false ∧
+    confinedStr (mkCfg true false) "/local".toList "/".toList = false ∧
+    confinedStr (mkCfg true false) "/local".toList "/LOCAL/f".toList = false ∧
+    confinedStr (mkCfg false false) "/local".toList "/LOCAL/f".toList = true ∧
+    confinedStr (mkCfg true false) "/sync/local".toList "/sync/local2/f".toList = false ∧
+    confinedStr (mkCfg true false) "/sync/local".toList "/sync".toList = false ∧
+    confinedStr (mkCfg true false) "/local".toList "/local/a\\b".toList = true := by
+  decide
+
+/-! ## The verdict on engine-issued calls (`checkCall`, executed by the monitor op `call`) -/
+
+theorem checkTarget_ok_iff (root : RPath) (holes : List RPath) (strict : Bool) (t : RPath) :
+    checkTarget root holes strict t = .ok ↔
+      (∃ rel, t = root ++ rel ∧ (strict = true → rel ≠ [])) ∧ ∀ h ∈ holes, confined h t = false := by
+  unfold checkTarget
+  by_cases hc : confined root t = true
+  · obtain ⟨rel, rfl⟩ := (confined_iff _ _).1 hc
+    simp only [hc, Bool.not_true, Bool.false_eq_true, if_false]
+    by_cases hs : (strict && (root ++ rel).length == root.length) = true
+    · simp only [hs, if_true]
+      simp only [Bool.and_eq_true, beq_iff_eq, List.length_append] at hs
+      have hrel : rel = [] := List.eq_nil_of_length_eq_zero (by omega)
+      constructor
+      · intro h; cases h
+      · rintro ⟨⟨rel', h1, h2⟩, _⟩
+        have : rel' = rel := List.append_cancel_left h1.symm
+        exact absurd (this ▸ hrel) (h2 hs.1)
+    · simp only [hs, Bool.false_eq_true, if_false]
+      by_cases hh : (holes.any fun h => confined h (root ++ rel)) = true
+      · simp only [hh, if_true]
+        constructor
+        · intro h; cases h
+        · rintro ⟨_, h2⟩
+          obtain ⟨x, hx, hxc⟩ := List.any_eq_true.1 hh
+          rw [h2 x hx] at hxc; cases hxc
+      · simp only [hh, Bool.false_eq_true, if_false, true_iff]
+        refine ⟨⟨rel, rfl, ?_⟩, ?_⟩
+        · intro hst hrel
+          apply hs
+          simp [hst, hrel]
+        · intro x hx
+          cases hxc : confined x (root ++ rel) with
+          | false => rfl
+          | true => exact absurd (List.any_eq_true.2 ⟨x, hx, hxc⟩) hh
+  · have hc' : confined root t = false := by cases h : confined root t <;> simp_all
+    simp only [hc', Bool.not_false, if_true]
+    constructor
+    · intro h; cases h
+    · rintro ⟨⟨rel, rfl, _⟩, _⟩
+      rw [confined_append] at hc'; cases hc'
+
+theorem checkCall_ok_iff (root : RPath) (holes : List RPath) (c : ECall) :
+    checkCall root holes c = .ok ↔ ∀ t ∈ c.targets, checkTarget root holes c.meth.strict t = .ok := by
+  unfold checkCall
+  cases hf : (c.targets.map (checkTarget root holes c.meth.strict)).find? (· ≠ .ok) with
+  | none =>
+    simp only [true_iff]
+    intro t ht
+    have := List.find?_eq_none.1 hf (checkTarget root holes c.meth.strict t) (List.mem_map.2 ⟨t, ht, rfl⟩)
+    simpa using this
+  | some v =>
+    have hv := List.find?_some hf
+    have hm := List.mem_of_find?_eq_some hf
+    obtain ⟨t, ht, rfl⟩ := List.mem_map.1 hm
+    simp only [ne_eq, decide_not, Bool.not_eq_eq_eq_not, Bool.not_true, decide_eq_false_iff_not] at hv
+    constructor
+    · intro h; exact absurd h hv
+    · intro h; exact absurd (h t ht) hv
+
+/-- what an accepted call means: every path it names (for a rename: source and destination) is the
+    root followed by a relative path — non-empty unless the call is `mkdir` — and none of them lies
+    at or below a folder the application's translate declines -/
+theorem checkCall_ok_spelled (root : RPath) (holes : List RPath) (c : ECall) :
+    checkCall root holes c = .ok ↔
+      ∀ t ∈ c.targets, (∃ rel, t = root ++ rel ∧ (c.meth.strict = true → rel ≠ [])) ∧
+        ∀ h ∈ holes, confined h t = false := by
+  rw [checkCall_ok_iff]
+  exact forall_congr' fun t => forall_congr' fun _ => checkTarget_ok_iff root holes c.meth.strict t
+
+theorem checkCalls_go_none_iff (root : RPath) (holes : List RPath) (cs : List ECall) (i : Nat) :
+    checkCalls.go root holes i cs = none ↔ ∀ c ∈ cs, checkCall root holes c = .ok := by
+  induction cs generalizing i with
+  | nil => simp [checkCalls.go]
+  | cons c rest ih =>
+    unfold checkCalls.go
+    cases hc : checkCall root holes c with
+    | ok => simp [ih, hc]
+    | outsideRoot => simp [hc]
+    | rootItself => simp [hc]
+    | declined => simp [hc]
+
+/-- the verdict on a whole run: the monitor answers `ok` iff every call is accepted -/
+theorem checkCalls_none_iff (root : RPath) (holes : List RPath) (cs : List ECall) :
+    checkCalls root holes cs = none ↔ ∀ c ∈ cs, checkCall root holes c = .ok :=
+  checkCalls_go_none_iff root holes cs 0
+
+theorem callsOk_iff (root : RPath) (holes : List RPath) (cs : List ECall) :
+    callsOk root holes cs = true ↔ checkCalls root holes cs = none := by
+  rw [checkCalls_none_iff]
+  simp [callsOk]
+
+/-- a call on a prefix sibling of the root (any method, as target or as rename destination) is
+    rejected as `outside-root` -/
+theorem prefix_sibling_call_rejected (pre rest : RPath) (c c' : String) (hne : c ≠ c') (holes : List RPath)
+    (strict : Bool) : checkTarget (pre ++ [c]) holes strict (pre ++ c' :: rest) = .outsideRoot := by
+  simp [checkTarget, prefix_sibling_not_confined pre rest c c' hne]
+
+/-! ## Universal safety of the Confine contract
+
+The machine: the account tree of one side, acted on by the reference semantics `applyOp` of
+Model/Spec/Sync.lean.  Contract: every path an action touches is confined to the root
+(`opConfined`, the same test the monitor applies to every engine-issued call).  Theorem: an engine all
+of whose actions respect the contract never changes anything outside the root — for every start
+tree, every action sequence of any length, every outside path.  (The monitor additionally compares
+the outside snapshots around every engine step, op `out`: that catches effects the call list does
+not explain.) -/
+
+theorem rebase_outside (s d q : RPath) (hs : isPrefixOf s q = false) (hd : isPrefixOf d q = false) (k : RPath) :
+    rebase s d k = q ↔ k = q := by
+  unfold rebase
+  by_cases hk : isPrefixOf s k = true
+  · rw [if_pos hk]
+    constructor
+    · intro h
+      have : isPrefixOf d q = true := by rw [← h]; exact isPrefixOf_append d _
+      rw [hd] at this; cases this
+    · intro h; subst h; rw [hs] at hk; cases hk
+  · rw [if_neg hk]
+
+theorem confined_op_outside_untouched (root : RPath) (t : Tree) (a : UOp) (ha : opConfined root a = true)
+    (q : RPath) (hq : confined root q = false) : (applyOp t a).get q = t.get q := by
+  have hout : ∀ x, confined root x = true → isPrefixOf x q = false := by
+    intro x hx
+    cases h : isPrefixOf x q with
+    | false => rfl
+    | true => rw [confined_trans root x q hx h] at hq; cases hq
+  by_cases hs : a.simple = true
+  · rw [get_applyOp_simple t hs q]
+    have hpt : confined root a.pt = true := by
+      have := ha; unfold opConfined at this; rw [UOp.roots_simple hs] at this; simpa using this
+    have : q ≠ a.pt := by
+      intro e; subst e; rw [hpt] at hq; cases hq
+    simp [this]
+  · obtain ⟨s, d, rfl⟩ := UOp.not_simple hs
+    have h2 : confined root s = true ∧ confined root d = true := by
+      have := ha; unfold opConfined UOp.roots at this; simpa using this
+    rw [applyOp_rename]
+    exact Tree.get_map_key (rebase s d) t q (rebase_outside s d q (hout s h2.1) (hout d h2.2))
+
+/-- UNIVERSAL SAFETY: for every tree, every sequence of contract-respecting actions and every path
+    outside the root, the object at that path (or its absence) is what it was -/
+theorem confined_ops_outside_untouched (root : RPath) (t : Tree) (as : List UOp)
+    (h : ∀ a ∈ as, opConfined root a = true) (q : RPath) (hq : confined root q = false) :
+    (applyOps t as).get q = t.get q := by
+  induction as generalizing t with
+  | nil => rfl
+  | cons a rest ih =>
+    rw [applyOps_cons, ih (applyOp t a) (fun b hb => h b (List.mem_cons_of_mem _ hb)),
+      confined_op_outside_untouched root t a (h a List.mem_cons_self) q hq]
+
+/-- the contract is necessary as well: a single unconfined action can change the outside -/
+theorem unconfined_op_can_touch_outside :
+    opConfined ["local"] (.delete ["localX", "f"]) = false ∧
+    (applyOp [(["localX", "f"], .file 1)] (.delete ["localX", "f"])).get ["localX", "f"] ≠
+      Tree.get [(["localX", "f"], .file 1)] ["localX", "f"] := by
+  decide
+
+/-! ## The verdicts on snapshots -/
+
+theorem stepsUntouched_iff (pairs : List (Tree × Tree)) :
+    stepsUntouched pairs = true ↔ ∀ p ∈ pairs, p.1.sameAs p.2 = true := by
+  simp [stepsUntouched, outsideUntouched]
+
+/-- soundness of the `out` verdict: around every engine step every outside path looks up the same -/
+theorem stepsUntouched_sound (pairs : List (Tree × Tree)) (h : stepsUntouched pairs = true) :
+    ∀ p ∈ pairs, ∀ q, p.1.get q = p.2.get q := fun p hp =>
+  sameAs_sound _ _ ((stepsUntouched_iff pairs).1 h p hp)
+
+theorem firstTouched_none_iff (pairs : List (Tree × Tree)) :
+    firstTouched pairs = none ↔ stepsUntouched pairs = true := by
+  simp [firstTouched, stepsUntouched, List.findIdx?_eq_none_iff]
+
+theorem noAlien_iff (names : List String) (tags : List Nat) (t : Tree) :
+    noAlien names tags t = true ↔ ∀ e ∈ t, legitEntry names tags e = true := by
+  simp [noAlien]
+
+/-- what `alien` accepts: every file inside the roots carries content a user put inside a root, and
+    every object that is not a parked `.conflicted` copy bears a name a user gave inside a root -/
+theorem noAlien_sound (names : List String) (tags : List Nat) (t : Tree) (h : noAlien names tags t = true) :
+    (∀ p tag, (p, Node.file tag) ∈ t → tag ∈ tags) ∧
+    (∀ p n nd, (p ++ [n], nd) ∈ t → isConflicted (p ++ [n]) = false → n ∈ names) := by
+  rw [noAlien_iff] at h
+  constructor
+  · intro p tag hm
+    have := h _ hm
+    simp only [legitEntry, Bool.and_eq_true] at this
+    simpa using this.2
+  · intro p n nd hm hc
+    have := h _ hm
+    simp only [legitEntry, Bool.and_eq_true, hc, Bool.false_or, List.getLast?_append, List.getLast?_singleton,
+      Option.some_or] at this
+    simpa using this.1
+
+theorem movedOutOk_iff (other : Tree) (p : RPath) :
+    movedOutOk other p = true ↔ ∀ e ∈ other, isPrefixOf p e.1 = false := by
+  simp [movedOutOk, Tree.under, List.filter_eq_nil_iff]
+
+/-- a move out of the root ended as a deletion: nothing is found at or below the path on the other side -/
+theorem movedOutOk_sound (other : Tree) (p q : RPath) (h : movedOutOk other p = true)
+    (hq : isPrefixOf p q = true) : other.get q = none := by
+  rw [movedOutOk_iff] at h
+  rw [Tree.get_eq_none_iff]
+  intro e he heq
+  have := h e he
+  rw [heq, hq] at this; cases this
+
+/-- a move into the root ended as a creation: the object is there and the other side has the same
+    subtree at its path -/
+theorem movedInOk_sound (mine other : Tree) (p : RPath) (h : movedInOk mine other p = true) :
+    mine.has p = true ∧ ∀ q, isPrefixOf p q = true → mine.get q = other.get q := by
+  simp only [movedInOk, Bool.and_eq_true] at h
+  refine ⟨h.1, fun q hq => ?_⟩
+  have := sameAs_sound _ _ h.2 q
+  unfold Tree.under at this
+  rw [Tree.get_filter_key (fun k => isPrefixOf p k) mine q, Tree.get_filter_key (fun k => isPrefixOf p k) other q] at this
+  simpa [hq] using this
+
+/-! ## The head of `embrace_change` (manager.py 1420-1444): decision-table theorems
+
+`embraceHead` (Model/Spec/Confine.lean) is the branch structure of the Python; `HeadIn` is finite, every
+statement below is checked over the whole table.  Tie: the harness runs the real
+`SyncManager.embrace_change` on stub entries for every row and diffs effects and outcome (op `head`). -/
+
+/-- the whole table: split the seven inputs, evaluate each of the 192 rows in the kernel -/
+macro "head_table" : tactic =>
+  `(tactic| (intro i; obtain ⟨a, b, c, d, e, f, g⟩ := i
+             cases a <;> cases b <;> cases c <;> cases d <;> cases e <;> cases f <;> cases g <;> decide))
+
+/-- moving a synchronised object out of the root is a deletion of its peer (reason IRRELEVANT), the
+    entry is split afterwards iff the deletion finished, and nothing is propagated -/
+theorem move_out_is_peer_delete (i : HeadIn) (h1 : (i.hasPath || i.exists_) = true) (h2 : i.tr = false)
+    (h3 : i.hadSync = true) (h4 : i.inRoot = false) :
+    (embraceHead i).1 = [.askTranslate, .notifyDiscarded, .askInRoot, .deletePeerIrrelevant] ++
+      (if i.delRet = .finished then [.split] else []) ∧
+    (embraceHead i).2 = .ret i.delRet := by
+  obtain ⟨a, b, c, d, e, f, g⟩ := i
+  simp only at h1 h2 h3 h4
+  subst h2 h3 h4
+  cases a <;> cases b <;> cases f <;> cases g <;> simp_all [embraceHead]
+
+/-- translate declines a path that is still inside the root (a nested sync owns the sub-folder):
+    nothing is deleted, nothing is propagated, the entry is parked as IRRELEVANT -/
+theorem declined_translate_left_alone (i : HeadIn) (h1 : (i.hasPath || i.exists_) = true) (h2 : i.tr = false)
+    (h4 : i.inRoot = true) :
+    Eff.deletePeerIrrelevant ∉ (embraceHead i).1 ∧ Eff.split ∉ (embraceHead i).1 ∧
+    Eff.ignoreIrrelevant ∈ (embraceHead i).1 ∧ (embraceHead i).2 = .ret .finished := by
+  revert h1 h2 h4; revert i; head_table
+
+/-- an object whose path does not translate is never propagated to the other side: the head never
+    falls through to the code that creates, uploads, renames or makes folders -/
+theorem outside_never_copied (i : HeadIn) (h1 : (i.hasPath || i.exists_) = true) (h2 : i.tr = false) :
+    (embraceHead i).2 ≠ .proceed := by
+  revert h1 h2; revert i; head_table
+
+/-- the peer is deleted by the head exactly when a previously synchronised object now lies outside the
+    root — never for an object that was never synchronised, never while the path is inside the root -/
+theorem peer_delete_iff (i : HeadIn) :
+    Eff.deletePeerIrrelevant ∈ (embraceHead i).1 ↔
+      (i.hasPath || i.exists_) = true ∧ i.tr = false ∧ i.hadSync = true ∧ i.inRoot = false := by
+  revert i; head_table
+
+/-- the head falls through to propagation exactly for a live entry whose path translates (or that
+    has neither a path nor existence: deletions without a path) -/
+theorem proceed_iff (i : HeadIn) :
+    (embraceHead i).2 = .proceed ↔ i.discarded = false ∧ ((i.hasPath || i.exists_) = true → i.tr = true) := by
+  revert i; head_table
+
+/-- the head has no effect on an entry it lets through (it only asked `translate`) -/
+theorem proceed_no_effect (i : HeadIn) (h : (embraceHead i).2 = .proceed) :
+    (embraceHead i).1 = [] ∨ (embraceHead i).1 = [.askTranslate] := by
+  revert h; revert i; head_table
+
+/-- the root test is asked of the CHANGED side's provider, and only for an entry that had a sync path and whose
+    path did not translate; translate is asked exactly when the entry has a path or exists -/
+theorem asks_iff (i : HeadIn) :
+    (Eff.askInRoot ∈ (embraceHead i).1 ↔ (i.hasPath || i.exists_) = true ∧ i.tr = false ∧ i.hadSync = true) ∧
+    (Eff.askTranslate ∈ (embraceHead i).1 ↔ (i.hasPath || i.exists_) = true) := by
+  revert i; head_table
+
+/-- `split` only ever follows a finished peer deletion -/
+theorem split_only_after_finished_delete (i : HeadIn) (h : Eff.split ∈ (embraceHead i).1) :
+    Eff.deletePeerIrrelevant ∈ (embraceHead i).1 ∧ i.delRet = .finished := by
+  revert h; revert i; head_table
+
+
+/-! ## The write-site table
+
+`tools/gen_write_sites.py` regenerates `Gen/WriteSites.lean` from the repo under test on every run: every call
+of a mutating provider-method name (`create upload rename delete mkdir mkdirs rmtree`) in manager.py,
+smartsync.py, state.py, cs.py, with receiver class and the syntactic form of its target arguments, plus the
+value flow of the path-valued targets (class V: assignments to / arguments passed for `translated_path`,
+`conflict_path`).  `auditedSites` below is that table as audited by hand, every target classified;
+`Props/C12Sites.lean` proves `CS.Gen.writeSites = auditedSites.map (·.1)` by `decide` (kept in its own module,
+outside the default import closure, so that a changed table breaks C12's obligation only).  A new, removed or
+changed write site — or a target fed from another source — breaks that theorem; the harness then searches
+with the trace monitor. -/
+
+inductive ArgClass where
+  | local              -- receiver is the storage backend or os/shutil: not a provider write
+  | translateResult    -- path: the parameter/variable `translated_path` (value flow below: always `self.translate(...)`)
+  | conflictSibling    -- path: `conflict_path` = join(folder, base + ".conflicted" + ext), (folder, base) = split(path)
+  | entryPath          -- path: `.path` of the side state of an entry under conflict resolution (read back from the
+                       --       provider by `get_latest` for an object the engine is synchronising)
+  | peerId             -- id: `sync[synced].oid`, the peer id of the entry being synchronised
+  | conflictPeerId     -- id: `conflict[synced].oid`, peer id of the entry found at `translated_path` by `lookup_path`
+  | entryId            -- id: `loser.oid`, id of a side of the entry under conflict resolution
+  | providerReturnedId -- id just returned by the provider (`info_path(path).oid`)
+  | apiArgument        -- supplied by the application through the public smartsync API (`smart_rename`)
+  | translateCall      -- value flow: right-hand side is a call of `self.translate`
+  | siblingJoin        -- value flow: right-hand side is `self.providers[side].join(folder, conflict_name)`
+  | sameName           -- value flow: the argument passed for `translated_path` is the caller's `translated_path`
+  deriving Repr, DecidableEq
+
+def ArgClass.pathOk : ArgClass → Bool
+  | .translateResult | .conflictSibling | .entryPath | .apiArgument => true
+  | _ => false
+
+def ArgClass.idOk : ArgClass → Bool
+  | .peerId | .conflictPeerId | .entryId | .providerReturnedId | .apiArgument => true
+  | _ => false
+
+/-- the hand-audited table: site, and the class of each of its target arguments -/
+def auditedSites : List (WriteSite × List ArgClass) := [
+  (⟨"manager.py", "ResolveFile.download", "rename", "O", "os", ["self.__temp_file + '.tmp'", "self.__temp_file"]⟩, [.local, .local]),
+  (⟨"manager.py", "SyncManager.done", "rmtree", "O", "shutil", ["self.tempdir"]⟩, [.local]),
+  (⟨"manager.py", "SyncManager.change_count", "assign:translated_path", "V", "", ["self.translate(OTHER_SIDE[i], e[i].path)"]⟩, [.translateCall]),
+  (⟨"manager.py", "SyncManager.path_conflict", "assign:translated_path", "V", "", ["self.translate(1, ent[0].path)"]⟩, [.translateCall]),
+  (⟨"manager.py", "SyncManager.check_revivify", "assign:translated_path", "V", "", ["self.translate(synced, provider_path)"]⟩, [.translateCall]),
+  (⟨"manager.py", "SyncManager._temp_file", "mkdir", "O", "os", ["self.tempdir"]⟩, [.local]),
+  (⟨"manager.py", "SyncManager.download_changed", "rename", "O", "os", ["partial_temp", "sync[changed].temp_file"]⟩, [.local, .local]),
+  (⟨"manager.py", "SyncManager.unsafe_mkdir_synced", "mkdirs", "P", "self.providers[synced]", ["translated_path"]⟩, [.translateResult]),
+  (⟨"manager.py", "SyncManager.mkdir_synced", "pass:unsafe_mkdir_synced:translated_path", "V", "", ["translated_path"]⟩, [.sameName]),
+  (⟨"manager.py", "SyncManager.upload_synced", "upload", "P", "self.providers[synced]", ["sync[synced].oid"]⟩, [.peerId]),
+  (⟨"manager.py", "SyncManager._create_synced", "create", "P", "self.providers[synced]", ["translated_path"]⟩, [.translateResult]),
+  (⟨"manager.py", "SyncManager.create_synced", "pass:_create_synced:translated_path", "V", "", ["translated_path"]⟩, [.sameName]),
+  (⟨"manager.py", "SyncManager.__resolver_merge_upload", "create", "P", "self.providers[ent1.side]", ["ent1.path"]⟩, [.entryPath]),
+  (⟨"manager.py", "SyncManager.__resolver_merge_upload", "create", "P", "self.providers[ent2.side]", ["ent2.path"]⟩, [.entryPath]),
+  (⟨"manager.py", "SyncManager.resolve_conflict", "upload", "P", "self.providers[loser.side]", ["loser.oid"]⟩, [.entryId]),
+  (⟨"manager.py", "SyncManager.delete_synced", "assign:translated_path", "V", "", ["self.translate(synced, sync[changed].path)"]⟩, [.translateCall]),
+  (⟨"manager.py", "SyncManager.delete_synced", "delete", "P", "self.providers[synced]", ["sync[synced].oid"]⟩, [.peerId]),
+  (⟨"manager.py", "SyncManager.handle_path_change_or_creation", "assign:translated_path", "V", "", ["self.translate(synced, sync[changed].path)"]⟩, [.translateCall]),
+  (⟨"manager.py", "SyncManager.handle_path_change_or_creation", "pass:mkdir_synced:translated_path", "V", "", ["translated_path"]⟩, [.sameName]),
+  (⟨"manager.py", "SyncManager.handle_path_change_or_creation", "pass:create_synced:translated_path", "V", "", ["translated_path"]⟩, [.sameName]),
+  (⟨"manager.py", "SyncManager.handle_path_change_or_creation", "pass:handle_rename:translated_path", "V", "", ["translated_path"]⟩, [.sameName]),
+  (⟨"manager.py", "SyncManager.handle_rename", "rename", "P", "self.providers[synced]", ["sync[synced].oid", "translated_path"]⟩, [.peerId, .translateResult]),
+  (⟨"manager.py", "SyncManager.handle_rename", "delete", "P", "self.providers[synced]", ["conflict[synced].oid"]⟩, [.conflictPeerId]),
+  (⟨"manager.py", "SyncManager.conflict_rename", "assign:conflict_path", "V", "", ["self.providers[side].join(folder, conflict_name)"]⟩, [.siblingJoin]),
+  (⟨"manager.py", "SyncManager.conflict_rename", "rename", "P", "self.providers[side]", ["oinfo.oid", "conflict_path"]⟩, [.providerReturnedId, .conflictSibling]),
+  (⟨"manager.py", "SyncManager.embrace_change", "assign:translated_path", "V", "", ["self.translate(synced, sync[changed].path)"]⟩, [.translateCall]),
+  (⟨"smartsync.py", "SmartSyncState._smart_unsync_ent", "delete", "P", "self.providers[LOCAL]", ["ent_info.oid"]⟩, [.providerReturnedId]),
+  (⟨"smartsync.py", "SmartCloudSync.smart_rename", "rename", "P", "self.providers[side]", ["oid", "new_path"]⟩, [.apiArgument, .apiArgument]),
+  (⟨"state.py", "SyncEntry.store", "create", "S", "storage", ["tag"]⟩, [.local]),
+  (⟨"state.py", "SyncState.__init__", "delete", "S", "self._storage", ["tag"]⟩, [.local]),
+  (⟨"state.py", "SyncState.forget", "delete", "S", "self._storage", ["self._tag"]⟩, [.local]),
+  (⟨"state.py", "SyncState.storage_delete_tag", "delete", "S", "self._storage", ["data_tag"]⟩, [.local]),
+  (⟨"state.py", "SyncState.storage_update_data", "create", "S", "self._storage", ["data_tag"]⟩, [.local]),
+  (⟨"state.py", "SyncState._storage_update", "delete", "S", "self._storage", ["tag"]⟩, [.local]),
+  (⟨"state.py", "SyncState._storage_update", "create", "S", "self._storage", ["tag"]⟩, [.local])
+]
+
+/-- argument kinds per method: `p` path-valued, `i` id-valued -/
+def methodShape (m : String) : Option (List Bool) :=   -- true = path, false = id
+  if m == "create" || m == "mkdir" || m == "mkdirs" then some [true]
+  else if m == "upload" || m == "delete" || m == "rmtree" then some [false]
+  else if m == "rename" then some [false, true]
+  else none
+
+def providerRowOk (a : WriteSite × List ArgClass) : Bool :=
+  match methodShape a.1.method with
+  | none => false
+  | some shape =>
+    shape.length == a.2.length && shape.length == a.1.args.length &&
+    (shape.zip a.2).all (fun x => if x.1 then x.2.pathOk else x.2.idOk)
+
+/-- the right-hand sides `translated_path` is ever assigned from -/
+def translateCalls : List String :=
+  ["self.translate(OTHER_SIDE[i], e[i].path)", "self.translate(1, ent[0].path)", "self.translate(synced, provider_path)",
+   "self.translate(synced, sync[changed].path)"]
+
+def flowRowOk (a : WriteSite × List ArgClass) : Bool :=
+  if a.1.method == "assign:translated_path" then a.2 == [.translateCall] && a.1.args.all translateCalls.contains
+  else if a.1.method == "assign:conflict_path" then
+    a.2 == [.siblingJoin] && a.1.args == ["self.providers[side].join(folder, conflict_name)"] && a.1.func == "SyncManager.conflict_rename"
+  else a.2 == [.sameName] && a.1.args == ["translated_path"]
+
+def rowOk (a : WriteSite × List ArgClass) : Bool :=
+  if a.1.recvClass == "P" then providerRowOk a
+  else if a.1.recvClass == "V" then flowRowOk a
+  else (a.1.recvClass == "S" || a.1.recvClass == "O") && a.2.all (· == .local)
+
+/-- every audited row is classified within the allowed classes: a provider write takes path-valued targets only
+    from {a `translate` result, a `.conflicted` sibling in the same folder, the provider-reported path of an entry
+    under conflict resolution, an application-supplied argument of the public API} and id-valued targets only from
+    {the peer id of the entry being synchronised (or of the entry in its way), an id of the entry under conflict
+    resolution, an id just returned by the provider, an application-supplied id}; `translated_path` is only ever
+    assigned from `self.translate(...)` and passed on under its own name; `conflict_path` only from the sibling
+    join; there is no receiver of unknown class and no indirect reference to a mutator -/
+theorem audited_rows_classified : auditedSites.all rowOk = true := by decide
+
+/-- the engine's own modules never write through anything but `self.providers[...]` -/
+theorem audited_provider_receivers :
+    (auditedSites.filter (·.1.recvClass == "P")).all
+      (fun a => a.1.recv == "self.providers[synced]" || a.1.recv == "self.providers[side]" ||
+        a.1.recv == "self.providers[ent1.side]" || a.1.recv == "self.providers[ent2.side]" ||
+        a.1.recv == "self.providers[loser.side]" || a.1.recv == "self.providers[LOCAL]") = true := by decide
+
+/-- cs.py and state.py contain no provider write at all; there are 12 provider write sites -/
+theorem audited_provider_site_count :
+    ((auditedSites.filter (·.1.recvClass == "P")).map (·.1.file)).eraseDups = ["manager.py", "smartsync.py"] ∧
+    (auditedSites.filter (·.1.recvClass == "P")).length = 12 := by decide
+
+/-! ### what the path classes guarantee (∀ states) -/
+
+/-- a `.conflicted` sibling: same folder as a path strictly inside the root ⇒ confined -/
+theorem sibling_confined (root folder : RPath) (n n' : String) (h : confined root (folder ++ [n]) = true)
+    (hs : root.length < (folder ++ [n]).length) : confined root (folder ++ [n']) = true := by
+  obtain ⟨rel, hrel⟩ := (confined_iff _ _).1 h
+  have hne : rel ≠ [] := by
+    intro e; subst e; simp at hrel; rw [hrel] at hs; simp at hs
+  obtain ⟨init, last, rfl⟩ : ∃ init last, rel = init ++ [last] := by
+    rcases List.eq_nil_or_concat rel with e | ⟨i, l, e⟩
+    · exact absurd e hne
+    · exact ⟨i, l, by rw [e, List.concat_eq_append]⟩
+  rw [← List.append_assoc] at hrel
+  have := List.append_inj' hrel (by simp)
+  rw [this.1, List.append_assoc]
+  exact confined_append _ _
+
+open CS.Path in
+/-- the semantic reading of the two path classes that are settled statically -/
+def PathClassSem (cT : Cfg) (rT : Str) : ArgClass → Str → Prop
+  | .translateResult, q => ∃ (cF : Cfg) (rF p : Str), cF.WF ∧ translate cF cT rF rT p = some q
+  | .conflictSibling, q => ∃ (folder : RPath) (n n' : String), pathComps cT q = folder ++ [n'] ∧
+      confined (pathComps cT rT) (folder ++ [n]) = true ∧ (pathComps cT rT).length < (folder ++ [n]).length
+  | _, _ => False
+
+open CS.Path in
+/-- PATH-TARGETED WRITES ARE CONFINED, for all configurations, roots and paths: a target that is a result of the
+    default `translate`, or the `.conflicted` sibling of a path strictly inside the root, lies inside the root on
+    a component boundary.  (Targets of class `entryPath` / `apiArgument` and every id-valued target are confined
+    iff the object currently lies in the root: that is what the trace monitor checks call by call.) -/
+theorem path_targeted_writes_confined (cT : Cfg) (hT : cT.WF) (rT : Str) (hrT : Absolute cT rT)
+    (k : ArgClass) (q : Str) (h : PathClassSem cT rT k q) : confinedStr cT rT q = true := by
+  cases k with
+  | translateResult =>
+    obtain ⟨cF, rF, p, hF, htr⟩ := h
+    exact translate_confinedStr cF cT hF hT rF rT p q hrT htr
+  | conflictSibling =>
+    obtain ⟨folder, n, n', hq, hc, hl⟩ := h
+    unfold confinedStr
+    rw [hq]
+    exact sibling_confined _ folder n n' hc hl
+  | _ => exact absurd h (by simp [PathClassSem])
+
+/-! ## non-vacuity -/
+
+open CS.Path in
+example :
+    -- an accepted and three rejected calls
+    checkCall ["local"] [["local", "priv"]] ⟨.rename, ["local", "a"], some ["local", "d", "a"]⟩ = .ok ∧
+    checkCall ["local"] [] ⟨.upload, ["localX", "f"], none⟩ = .outsideRoot ∧
+    checkCall ["local"] [] ⟨.delete, ["local"], none⟩ = .rootItself ∧
+    checkCall ["local"] [] ⟨.mkdir, ["local"], none⟩ = .ok ∧
+    checkCall ["local"] [["local", "priv"]] ⟨.create, ["local", "priv", "s"], none⟩ = .declined ∧
+    -- the hypotheses of the bridge and of `path_targeted_writes_confined` are satisfiable
+    (mkCfg true false).WF ∧ Absolute (mkCfg true false) "/remote".toList ∧
+    translate (mkCfg true false) (mkCfg true false) "/local".toList "/remote".toList "/local/a/b".toList
+      = some "/remote/a/b".toList ∧
+    translate (mkCfg true false) (mkCfg true false) "/local".toList "/remote".toList "/localX/b".toList = none ∧
+    -- the three rows of the decision table the property names
+    embraceHead ⟨true, true, false, true, false, .finished, false⟩ =
+      ([.askTranslate, .notifyDiscarded, .askInRoot, .deletePeerIrrelevant, .split], .ret .finished) ∧
+    embraceHead ⟨true, true, false, true, true, .finished, false⟩ =
+      ([.askTranslate, .notifyDiscarded, .askInRoot, .ignoreIrrelevant], .ret .finished) ∧
+    embraceHead ⟨true, true, true, false, true, .finished, false⟩ = ([.askTranslate], .proceed) :=
+  ⟨by decide, by decide, by decide, by decide, by decide, mkCfg_WF true true, ⟨"remote".toList, by decide⟩,
+   by decide, by decide, by decide, by decide, by decide⟩
 
 end CS.Spec
